@@ -20,6 +20,9 @@ import (
 	"fmt"
 	"math/rand/v2"
 	"strings"
+	"sync"
+	"sync/atomic"
+	"time"
 
 	"golang.org/x/net/internal/verifrt"
 )
@@ -170,6 +173,8 @@ type vwsHist struct {
 	aborted     bool
 	idleCreations int // ids that got their first AdjustStream while idle
 	curSids       []uint32 // streams the scheduler call in progress is about
+	curCall       string
+	opSeq         atomic.Int64 // bumped right before every scheduler call (hang guard)
 
 	// rfc9218 buffered pre-open update (model side)
 	pendID   uint32
@@ -269,7 +274,8 @@ func (h *vwsHist) idleExposed(s *vwsStream) bool {
 
 // call runs one scheduler method; a panic is a violation and ends the history.
 func (h *vwsHist) call(what string, sids []uint32, fn func()) (ok bool) {
-	h.curSids = sids
+	h.curSids, h.curCall = sids, what
+	h.opSeq.Add(1)
 	defer func() {
 		if e := recover(); e != nil {
 			msg := fmt.Sprint(e)
@@ -802,8 +808,8 @@ func (h *vwsHist) pop() bool {
 		h.logf("Pop -> ok=true with ZERO FrameWriteRequest")
 		h.zeroReq++
 		h.violation("pop-zero-request", nil, "Pop returned ok=true with a zero FrameWriteRequest (write == nil, stream=%v); model: sendable=%v, %d frames queued", wr.stream != nil, want, h.queuedFrames())
-		if h.zeroReq > 100000 {
-			h.aborted = true
+		if h.zeroReq >= 20 {
+			h.aborted = true // enough of them; the rest of this history would only repeat it
 		}
 		// nothing was delivered: the model does not move, the history goes on
 		return true
@@ -1194,5 +1200,67 @@ func (h *vwsHist) prioAfter(pre *vwsPrioPre, served *vwsStream) {
 	if inc == 0 {
 		h.lastServed[u] = served.id
 		h.lastWait[u] = 0
+	}
+}
+
+// ---- hang guard ----
+//
+// A scheduler method that never returns (a corrupted ring makes Pop spin) cannot be reported
+// by the goroutine that is stuck in it. Histories therefore run on their own goroutine while
+// the case goroutine watches the history's call counter. This is not an oracle on timing: a
+// single scheduler call does a few hundred instructions, and it is only declared hung when
+// the counter has not moved for vwsHangSeconds one-second ticks in a row (so a stalled
+// process, which stalls the ticker too, cannot trip it). After a hang that scheduler is not
+// exercised any further in this run (every later history would leak another spinning goroutine).
+
+const vwsHangSeconds = 45
+
+var (
+	vwsHungMu sync.Mutex
+	vwsHung   = map[string]bool{}
+)
+
+// vwsRunGuarded runs one history; it returns nil if the history was skipped or hung.
+func vwsRunGuarded(c *verifrt.Case, r *verifrt.R, cfg vwsConfig, p vwsParams) *vwsHist {
+	vwsHungMu.Lock()
+	skip := vwsHung[cfg.Name]
+	vwsHungMu.Unlock()
+	if skip {
+		r.Event("histories_skipped_after_hang_"+cfg.Name, 1)
+		return nil
+	}
+	h := vwsNewHist(c, r, cfg, p)
+	done := make(chan any, 1)
+	go func() {
+		defer func() { done <- recover() }()
+		h.run()
+	}()
+	tick := time.NewTicker(time.Second)
+	defer tick.Stop()
+	last, same := int64(-1), 0
+	for {
+		select {
+		case e := <-done:
+			if e != nil {
+				panic(e) // harness bug or a panic outside a scheduler call: let the runtime record it
+			}
+			return h
+		case <-tick.C:
+			if v := h.opSeq.Load(); v == last {
+				same++
+			} else {
+				last, same = v, 0
+			}
+			if same >= vwsHangSeconds && last > 0 {
+				// the history goroutine is inside call(); nothing else touches h
+				h.logf("  %s DOES NOT RETURN", h.curCall)
+				h.violation("scheduler-call-hangs", h.curSids, "%s did not return (call counter unchanged for %d s); no further %s histories in this run", h.curCall, vwsHangSeconds, cfg.Name)
+				vwsHungMu.Lock()
+				vwsHung[cfg.Name] = true
+				vwsHungMu.Unlock()
+				r.Note("scheduler %s: a call hung; remaining histories for it were skipped", cfg.Name)
+				return nil
+			}
+		}
 	}
 }
